@@ -272,3 +272,32 @@ fn hot_reloading_thread(
 
     log::info!("Stopping hot-reloading");
 }
+
+/// Verification hooks (only with `--cfg assets_manager_verif`).
+#[cfg(assets_manager_verif)]
+pub mod verif {
+    use super::*;
+
+    pub use super::watcher::verif::{id_of_path, Handler};
+
+    /// The receiving end of an `EventSender`, as the hot-reloading thread
+    /// sees it.
+    pub struct EventDrain(Receiver<Events>);
+
+    impl EventDrain {
+        /// Returns all the entries sent so far, in order.
+        pub fn drain(&self) -> Vec<OwnedDirEntry> {
+            let mut entries = Vec::new();
+            while let Ok(events) = self.0.try_recv() {
+                events.for_each(|e| entries.push(e));
+            }
+            entries
+        }
+    }
+
+    /// Creates an `EventSender` and the matching receiving end.
+    pub fn event_channel() -> (EventSender, EventDrain) {
+        let (tx, rx) = channel::unbounded();
+        (EventSender(tx), EventDrain(rx))
+    }
+}
